@@ -97,9 +97,12 @@ def probe(text):
         c = parse_cdc(text)
     except Exception as ex:
         return ("rejected", type(ex).__name__)
-    elements = c.get_elements()
-    return ("ok", [(type(e).__name__, type(e).get_symbol(), tuple(e.get_values().items())) for e in elements], c.serialize(),
-            [complex(z) for z in c.get_impedances(np.array([1.0, 1e3]))])
+    try:
+        elements = c.get_elements()
+        return ("ok", [(type(e).__name__, type(e).get_symbol(), tuple(e.get_values().items())) for e in elements], c.serialize(),
+                [complex(z) for z in c.get_impedances(np.array([1.0, 1e3]))])
+    except Exception as ex:  # a parsed circuit that cannot be listed / serialised / simulated is an observation, not a harness failure
+        return ("parsed-but-unusable", type(ex).__name__, str(ex)[:120])
 
 
 def listings():
